@@ -1,5 +1,6 @@
 import Lean.Data.Json
 import ReqVerif.Model.Merge
+import ReqVerif.Model.Select
 /-!
 rvdriver: line protocol between the Python harness and the executable models.
 One JSON object per input line (`{"op": ..., ...}`), one JSON value per output line.
@@ -60,12 +61,31 @@ def opNorm (j : Json) : Json :=
               ("bzl", str (bzlNormChain.apply (jStr j "name").toList)),
               ("safe", str (safeName (jStr j "name").toList))]
 
+/-! ### Selection (C03) -/
+
+def parseCand (j : Json) : Sel.Cand :=
+  { id := jNat j "id", nameOk := jBool j "nameOk", ver := jNat j "ver", isPre := jBool j "isPre",
+    tagsOk := jBool j "tagsOk", specOk := jBool j "specOk", specOkPre := jBool j "specOkPre",
+    typ := jNat j "typ", extra := jNat j "extra", tag := jNat j "tag", readable := jBool j "readable" }
+
+def opSelect (j : Json) : Json :=
+  let P : Sel.Params := { allowPre := jBool j "allowPre", hasEq := jBool j "hasEq", reqHasPre := jBool j "reqHasPre",
+                          allowSdist := jBool j "allowSdist", budget := jOptNat j "budget" }
+  let r := Sel.select P ((jArr j "cands").map parseCand)
+  Json.mkObj [("chosen", match r.1 with | some c => Json.num (JsonNumber.fromNat c.id) | none => Json.null),
+              ("asked", jsonNats r.2)]
+
+def opSortCands (j : Json) : Json :=
+  jsonNats ((Sel.sortDesc ((jArr j "cands").map parseCand)).map (·.id))
+
 def dispatch (op : String) (j : Json) : Json :=
   match op with
   | "merge" => opMerge j
   | "reduce" => opReduce j
   | "requires" => opRequires j
   | "norm" => opNorm j
+  | "select" => opSelect j
+  | "sort-cands" => opSortCands j
   | "hello" => Json.mkObj [("protocol", (1 : Nat))]
   | _ => Json.mkObj [("bad-op", op)]
 
